@@ -92,8 +92,11 @@ AUT_TB = [KERNEL, EXTRACT, HARNESS,
           "fed to the checkers is computed by unverified code and only checked"]
 AUT_ASSUME = COMMON_ASSUMPTIONS + [
     "the 64-bit FxHash used by AutomatonTraverser::visit is modelled by the restricted binding itself (hash collisions are not exhibited)",
-    "port graphs: no Gallina model of the host side (walk_path, root candidates) exists; the port-graph part of this check is "
-    "implementation-versus-specification only (embedding oracle), with the known-finding classes of KNOWN_FINDINGS.json"]
+    "port graphs: the host side (walk_path, list_bind_options, root_candidates.rs, predicates, HashMap bindings) is modelled in Model/DomPG.v and "
+    "compared with the implementation (sub-check pgm: list_bind_options on grown binding maps, single matcher, traversal on dumped automata, as "
+    "multisets: hash iteration orders inside root_candidates.rs are not modelled); no theorem is stated about that model; the pattern side "
+    "(line_partition, try_to_constraint_vec) is taken from the implementation; occurrences are judged by the embedding oracle, with the "
+    "known-finding classes of KNOWN_FINDINGS.json"]
 
 def aut_prop(level, explanation, technique, subs):
     return {"subs": subs, "level": level, "rule": AUT_RULE, "trusted_base": AUT_TB, "assumptions": AUT_ASSUME,
@@ -106,7 +109,7 @@ PROPS.update({
         "evaluated on every automaton the real builder produces for the generated pattern sets; the modelled traversal is compared with "
         "ManyMatcher::find_matches as exact match sequences on those automata; every reported match is also judged by an independent occurrence oracle.",
         "Coq proof (invariant of the FIFO traversal w.r.t. an inductive labelling) + verified certificate checker on the real automaton + differential correspondence + occurrence oracle",
-        ["c01", "pg01"]),
+        ["c01", "pg01", "pgm"]),
     "C02": aut_prop("translation_validation",
         "Strings: Theorem c02_string - for every automaton that passes wf_check, cert_complete and s_keys_tight, every host, every fuel and every "
         "Ok result of the modelled breadth-first traversal (scope-restricted bindings, visited-set pruning by (state, view)), every occurrence of every "
@@ -116,7 +119,7 @@ PROPS.update({
         "correspondence and the occurrence oracle. Port graphs: oracle only.",
         "Coq proof of run completeness from verified certificates (trace-closure of the BFS + AND-OR completeness certificate) evaluated on the real "
         "automaton + differential correspondence + occurrence oracle",
-        ["c02", "pg02"]),
+        ["c02", "pg02", "pgm"]),
     "C03": aut_prop("translation_validation",
         "Theorem c03_accepts_iff_constraints: on an automaton passing both certificates, pattern i is accepted under a valuation iff all constraints "
         "of pattern i are true - i.e. exactly when the one-pattern matcher's constraints hold. Strings, down to the matchers: Theorem "
@@ -125,7 +128,7 @@ PROPS.update({
         "NaiveManyMatcher are compared as sets of (pattern, bindings) incl. the match data on every generated host (strings, matrices, port graphs, "
         "table domain with six tree strategies).",
         "verified certificates (sound + complete) on the real automaton + Coq proof that run and naive matcher both equal the occurrence specification "
-        "(strings) + ManyMatcher vs NaiveManyMatcher differential", ["c03", "pg03", "tab03"]),
+        "(strings) + ManyMatcher vs NaiveManyMatcher differential", ["c03", "pg03", "tab03", "pgm"]),
     "C04": aut_prop("translation_validation",
         "Theorem c04_heuristic_independent_acceptance: two certified automata for the same constraint lists accept the same patterns under the same "
         "valuations; every heuristic answer sequence is enumerated while the number of builds stays <= 24 (quick) / 256 (thorough), random beyond; "
@@ -149,7 +152,7 @@ PROPS.update({
         "wf_check (proved to establish every clause of the property, Theorem c09_wf_check_sound / c09_clauses) is evaluated on the dump of every "
         "automaton built, for all enumerated heuristic answer sequences - all states, not only those a host visits.",
         "verified structural checker (Coq soundness proof) run on the dump of every real automaton", ["c09", "tab09"]),
-    "C05": {"subs": ["c05", "pg05"], "level": "exploration", "rule": AUT_RULE + "; for C05 each (pattern, host) pair is one case",
+    "C05": {"subs": ["c05", "pg05", "pgm"], "level": "exploration", "rule": AUT_RULE + "; for C05 each (pattern, host) pair is one case",
         "trusted_base": AUT_TB, "assumptions": AUT_ASSUME, "timeout": 3000,
         "explanation": "Strings: Theorems c05_string_single_exact / _match_exists_exact / _naive_exact - the modelled SinglePatternMatcher reports "
                        "exactly the occurrences (every reported binding is anchored at an occurrence and binds all constraint keys; every occurrence is "
@@ -158,7 +161,7 @@ PROPS.update({
                        "compared with the extracted model (exact sequences) and with an independent occurrence scan (exact anchor lists, order included); "
                        "pattern -> constraint vectors are compared exactly. Port graphs: oracle only, with the known classes.",
         "technique": "Coq proof on the model of the single-pattern matcher (strings: exact; matrices: soundness) + differential correspondence with that model + occurrence oracle"},
-    "C11": {"subs": ["c11", "pg11"], "level": "proof",
+    "C11": {"subs": ["c11", "pg11", "pgm"], "level": "proof",
         "rule": "random patterns (as for C01) inside sets of 1-4 patterns; each pattern is matched against its own instantiation (variables instantiated "
                 "consistently, also with equal characters for different variables; matrix holes filled), then along a random history of host extensions "
                 "of length <= 6 (quick) / 20 (thorough); the same from an occurrence found in a random planted host; every check is one case; "
@@ -181,7 +184,7 @@ PROPS.update({
                        "(iii) fingerprinting the same cases in several separate processes; the Coq part only records that the modelled traversal is a "
                        "function of the dumped automaton and the host.",
         "technique": "source audit + in-process and cross-process differential comparison (theorem part trivial by construction)"},
-    "C08": {"subs": ["c08", "pg08"], "level": "exploration",
+    "C08": {"subs": ["c08", "pg08", "pgm"], "level": "exploration",
         "rule": AUT_RULE + "; plus a degenerate stream (empty pattern set, empty and one-cell patterns, every degenerate host: empty, ragged, "
                 "non-ASCII) under Never / Default / a Custom sequence; construction of ManyMatcher, find_matches, NaiveManyMatcher and "
                 "SinglePatternMatcher are all run under catch_unwind with overflow checks and debug assertions enabled",
